@@ -125,7 +125,11 @@ def gen_history(rnd):
             ops.append(("reset",))
             depth = 0
         elif k == 12:
-            ops.append((rnd.choice(["is_sat", "is_valid", "is_unsat"]), g.term(BOOL, 2)))
+            q_ = g.term(BOOL, 2)
+            ops.append((rnd.choice(["is_sat", "is_sat", "is_valid", "is_unsat"]), q_))
+            if rnd.random() < 0.6:
+                # the model of a one-shot query is read right away
+                ops.append(("get_model",) if rnd.random() < 0.6 else ("get_value", q_))
         elif k == 13:
             ops.append(("solve",))
             ops.append(("get_model",))
@@ -161,6 +165,7 @@ def check_history(run, ops, shortcut):
     seen_syms_levels = {}
     nontriv = False
     sat_state = None                # last verdict valid for value queries
+    oneshot = []                    # the formula of a satisfiable is_sat whose model can still be read
     solver = None
     try:
         with env:
@@ -177,6 +182,8 @@ def check_history(run, ops, shortcut):
                                                           [r["cmd"][:60] + " -> " + r["reply"][:60] for r in read_log(log)[-4:]]))
             for i, op in enumerate(ops):
                 live = [a for fr in frames for a in fr]
+                if op[0] not in ("get_model", "get_value"):
+                    oneshot = []            # any other command ends the life of a one-shot query's model
                 try:
                     if op[0] == "assert":
                         f = pys.build(env, op[1])
@@ -227,6 +234,12 @@ def check_history(run, ops, shortcut):
                             fail("verdict", i, "%s returned %r, truth is %r" % (op[0], r, want))
                             return
                         sat_state = None
+                        if op[0] == "is_sat" and r is True:
+                            # the model of a satisfiable one-shot query can be read until the next command: it
+                            # satisfies the assertions AND the queried formula
+                            sat_state = True
+                            oneshot = [pys.decode(f.simplify())]       # (what the solver is sent, as for assertions)
+                            run.cls("model-after-one-shot-query")
                     elif op[0] == "get_model":
                         if sat_state is not True:
                             continue
@@ -234,8 +247,9 @@ def check_history(run, ops, shortcut):
                         if len(frames) > 1:
                             nontriv = True
                         logged = logged_model([r for r in read_log(log) if r["cmd"] == "(check-sat)"][-1])
+                        live_m = live + oneshot
                         needed = set()
-                        for a in live:
+                        for a in live_m:
                             needed |= reffv(a)
                         I = {}
                         for (n, t) in sorted(needed, key=repr):
@@ -257,15 +271,16 @@ def check_history(run, ops, shortcut):
                             if logged is not None and I[n] != logged.get(n):
                                 fail("model-value", i, "get_model() gives %s = %r, the solver reported %r" % (n, I[n], logged.get(n)))
                                 return
-                        if not all(Evaluator(I, {"S1": CARD}).eval(a) for a in live):
-                            fail("model-does-not-satisfy", i, "the model %r does not satisfy the live assertions" % I)
+                        if not all(Evaluator(I, {"S1": CARD}).eval(a) for a in live_m):
+                            fail("model-does-not-satisfy", i, "the model %r does not satisfy the live assertions%s" % (
+                                I, " and the formula of the one-shot query" if oneshot else ""))
                             return
                     elif op[0] == "get_value":
                         if sat_state is not True:
                             continue
                         b = op[1]
                         live_syms = set()
-                        for a in live:
+                        for a in live + oneshot:
                             live_syms |= reffv(a)
                         if not (reffv(b) <= live_syms) or any(t[0] == "Sort" for (_, t) in reffv(b)):
                             continue            # only terms over (non sort-valued) symbols of the live assertions
